@@ -184,10 +184,8 @@ Proof. unfold remember_dup. apply sec_setq. Qed.
 Lemma sec_pda u s f : sec (process_downstream_ack u s f) = sec u.
 Proof.
   unfold process_downstream_ack.
-  destruct (p_len (u_out u) =? 0); [reflexivity|].
-  destruct (negb _); [reflexivity|].
-  match goal with |- context [if ?c then _ else _] => destruct c end; [|reflexivity].
-  rewrite sec_getq. reflexivity.
+  repeat (match goal with |- context [if ?c then _ else _] => destruct c end);
+    rewrite ?sec_getq; reflexivity.
 Qed.
 
 (* ---- send_chunk_or_dataless in stages ------------------------------------------------------ *)
